@@ -293,10 +293,10 @@ def process(run, b, consts, cases, asts, stream):
 def gen_all(run, consts, tier):
     rng = run.rng
     maxline = consts["ini_max_line"] or 1024
-    n_ast = 500 if tier == "quick" else 20000
-    n_mut = 500 if tier == "quick" else 20000
-    n_cb = 1500 if tier == "quick" else 50000
-    n_conf = 120 if tier == "quick" else 2500
+    n_ast = 2000 if tier == "quick" else 40000
+    n_mut = 2000 if tier == "quick" else 40000
+    n_cb = 6000 if tier == "quick" else 150000
+    n_conf = 300 if tier == "quick" else 5000
     asts, meta = [], []
     rendered = []
     for _ in range(n_ast):
